@@ -113,7 +113,7 @@ func genC03Cases(e *Env) []xferCase {
 			add(c)
 		}
 	}
-	for _, sh := range []string{"empty", "dirsonly", "zerolen", "longpath", "fewchunks", "boundary", "prefixnames"} {
+	for _, sh := range []string{"empty", "dirsonly", "zerolen", "longpath", "fewchunks", "boundary", "prefixnames", "linksiblings"} {
 		for k := 0; k < e.Pick(8, 20); k++ {
 			c := xferCase{Shape: sh, Names: "plain", TSeed: r.U64()}
 			c.Cfg.Streams, c.Cfg.Resume = 1+r.Intn(8), r.Bool()
